@@ -402,3 +402,15 @@ def s2_trace_diag():
     if bad:
         return f"tracer self-check failed for {bad} (printed expression != what the Python function computes)"
     return None
+
+
+def s2_trace_quat():
+    """PRE_LEAN hook of C14: re-trace utils.quat_product and rewrite lean/Generated/TracedQuat.lean (bridge: lean/Bridge/Quat.lean)."""
+    from .trace import tracer
+
+    traced = tracer.trace_quat()
+    tracer.emit_quat(traced)
+    bad = tracer.selfcheck_quat(traced)
+    if bad:
+        return f"tracer self-check failed for {bad}"
+    return None
